@@ -23,7 +23,8 @@ def gen_iexpr(rng, simple=False):
         if simple or rng.random() < 0.5:
             out.append([None, v])
         else:
-            out.append([rng.choice([-7, -3, -2, -1, 1, 2, 3, 4, 12]), v])
+            # 0 and "-0" (written `- 0 * v`, read as the coefficient 0: the one place where two texts give one structure)
+            out.append([rng.choice([-7, -3, -2, -1, 1, 2, 3, 4, 12, 0, "-0"]), v])
     return out
 
 
@@ -64,6 +65,8 @@ def gen_directive(rng):
 # ------------------------------------------------------------------------------------------ tokens
 
 def coef_toks(c):
+    if c == "-0":
+        return [["S", "-"], ["D", 0]]
     return [["S", "-"], ["D", -c]] if c < 0 else [["D", c]]
 
 
@@ -262,6 +265,9 @@ def expected(grammar, ast):
         return [ast["rank"], "coord" if ast["written"] == "coord" else "pos"]
     if grammar == "level":
         return [ast["name"], 1 if ast["last"] is None else ast["last"] + 1]
+    if grammar == "einsum":
+        # `- 0 * v` is read as the coefficient 0
+        return json.loads(json.dumps(ast).replace('"-0"', "0"))
     return ast
 
 
@@ -499,7 +505,7 @@ def run(ctx):
                 "level names) rendered with random blanks/tabs; plus near-miss strings; plus specifications whose text reaches the compiler's own extractors; "
                 "non-trivial = rendering with at least 3 tokens; distinct = distinct text")
     ctx.trusted = ["Lean kernel; Props/C17 (token level)", "Lark (lexer, %ignore WS_INLINE, Earley) is external: its agreement with the token-level reader is measured on generated strings, not proved",
-                   "the structural walk of Lark trees and the readers of the compiler's IR getters are harness code", "the converse (exactness) is proved for the four small grammars, sampled for Einsums"]
+                   "the structural walk of Lark trees and the readers of the compiler's IR getters are harness code", "the converse (exactness) is proved for the four small grammars and for Einsum expressions without zero coefficients (C17.einsum_exact / einsum_bijection); near-miss strings are sampled"]
     rng = random.Random(ctx.seed * 48611 + 17)
     k = 1 if ctx.tier == "quick" else 8
     cases = []
